@@ -115,7 +115,9 @@ func genPrintFile(r *RNG, k int) *genFile {
 			case 2:
 				ctx.Comment("a comment", "with two lines")
 			case 3:
-				if r.Chance(30) {
+				if r.Chance(15) {
+					ctx.Comment() // a comment with no lines
+				} else if r.Chance(30) {
 					ctx.Comment("first line\nMOVQ AX, BX // second line of one comment string")
 				} else if r.Chance(40) {
 					ctx.Comment("100% of %d items, rate=%s%%")
@@ -293,6 +295,9 @@ func c11(c *Ctx) {
 	inc := filepath.Join(goroot(), "pkg", "include")
 	var rows []string
 	nAsm, nFuncs := 0, 0
+	sharedPr := printer.NewGoAsm(cfg)
+	var prevHeld []byte
+	prevSnap := ""
 	for k := 0; k < n; k++ {
 		g := genPrintFile(rng, k)
 		if err := pass.Compile.Execute(g.F); err != nil {
@@ -311,6 +316,16 @@ func c11(c *Ctx) {
 			pr := printer.NewGoAsm(cfg)
 			o1, _ := pr.Print(g.F)
 			o2, _ := pr.Print(g.F)
+			// and a printer shared by all files of the run: what it returned for the previous file is still that text
+			nowHeld, _ := sharedPr.Print(g.F)
+			if prevHeld != nil && string(prevHeld) != prevSnap {
+				o.Plan.GoViolations = append(o.Plan.GoViolations, GoViolation{Key: "print:earlier-output-changed", Desc: fmt.Sprintf("case %d: the bytes the printer returned for the previous file changed when the same printer printed this one", idx), Replay: map[string]any{"returned": prevSnap, "now": string(prevHeld)}})
+			}
+			prevHeld = nowHeld
+			prevSnap = string(prevHeld)
+			if prevSnap != string(out) {
+				o.Plan.GoViolations = append(o.Plan.GoViolations, GoViolation{Key: "print:not-repeatable", Desc: fmt.Sprintf("case %d: a printer that has printed other files before prints this file differently from a fresh one", idx), Replay: map[string]any{"file": g.Desc, "text": string(out), "second": prevSnap}})
+			}
 			if string(o1) != string(out) || string(o2) != string(out) {
 				o.Plan.GoViolations = append(o.Plan.GoViolations, GoViolation{Key: "print:not-repeatable", Desc: fmt.Sprintf("case %d: printing the same file again gives different text (fresh printer: %v, same printer a second time: %v)", idx, string(o1) == string(out), string(o2) == string(out)), Replay: map[string]any{"file": g.Desc, "text": string(out), "second": string(o2)}})
 			}
